@@ -43,6 +43,36 @@ RECURSIVE ElemSer(_)
 ElemBody(e) == IF e.t \in {6, 7} THEN Flatten([i \in 1..Len(e.kids) |-> ElemSer(e.kids[i])]) ELSE LeafBody(e)
 ElemSer(e)  == Once({WithHeader(e.t, body) : body \in {ElemBody(e)}})
 
+(* Legal but not minimal size descriptors.  A text / URL / sequence / alternative / other-typed value of len
+   octets may be announced with any of the explicit forms that can hold len (index 5 up to 255, 6 up to 65535,
+   7 always); many stacks always emit the 16-bit form for lists.  A width tree [idx, kids] parallel to an
+   element says which form each node uses (ignored for the fixed-size types).  ElemSerW(e, w) is the wire
+   image with those forms; ElemSer is the special case of the minimal tree.  Whatever the forms, the octets
+   denote the same element (PduMC: ElemPar(ElemSerW(e, w), 0)[1] = e), and a parsed unit must re-serialise
+   to the octets it was parsed from, not to its minimal re-encoding.                                      *)
+Explicit(t) == t \notin {0, 1, 2, 3, 5}
+SizeDescW(t, len, idx) ==
+    IF ~Explicit(t) THEN SizeDesc(t, len)
+    ELSE CASE idx = 5 -> <<5, <<len>>>> [] idx = 6 -> <<6, U16BeSer(len)>> [] OTHER -> <<7, U32BeOfInt(len)>>
+FormHolds(t, len, idx) ==
+    ~Explicit(t) \/ (idx = 5 /\ len <= 255) \/ (idx = 6 /\ len <= 65535) \/ idx = 7
+
+RECURSIVE ElemSerW(_, _)
+ElemBodyW(e, w) == IF e.t \in {6, 7} THEN Flatten([i \in 1..Len(e.kids) |-> ElemSerW(e.kids[i], w.kids[i])]) ELSE LeafBody(e)
+ElemSerW(e, w)  == Once({<<8 * e.t + SizeDescW(e.t, Len(body), w.idx)[1]>> \o SizeDescW(e.t, Len(body), w.idx)[2] \o body : body \in {ElemBodyW(e, w)}})
+
+\* the width tree has the element's shape and every chosen form can hold its value
+RECURSIVE WidthsOk(_, _)
+WidthsOk(e, w) ==
+    /\ (e.t \in {6, 7} => /\ Len(w.kids) = Len(e.kids)
+                          /\ \A i \in 1..Len(e.kids) : WidthsOk(e.kids[i], w.kids[i]))
+    /\ FormHolds(e.t, Len(ElemBodyW(e, w)), w.idx)
+
+\* the minimal width tree of an element (ElemSerW(e, MinWidths(e)) = ElemSer(e))
+RECURSIVE MinWidths(_)
+MinWidths(e) == [idx |-> SizeDesc(e.t, Len(ElemBody(e)))[1],
+                 kids |-> IF e.t \in {6, 7} THEN [i \in 1..Len(e.kids) |-> MinWidths(e.kids[i])] ELSE <<>>]
+
 RECURSIVE ElemInRange(_)
 ElemInRange(e) ==
     /\ e.t \in 0..8
